@@ -56,8 +56,8 @@ class TyRef:
 Int, Real, Bool, Str, NoneT = TyRef('Int'), TyRef('Real'), TyRef('Bool'), TyRef('Str'), TyRef('None')
 
 
-def Opaque(name, **attrs):
-    return TyRef('Opaque', name, attrs=attrs)
+def Opaque(_name, **attrs):
+    return TyRef('Opaque', _name, attrs=attrs)
 
 
 def Tuple(*items):
